@@ -4,7 +4,7 @@
    External behaviour (LAPACK's pivoted LU and Cholesky, the triangular solve, the iterative solvers) = universally
    quantified oracles; their specifications are the hypotheses [tinv_ok] and those collected, per leaf, by [ok]. *)
 From Coq Require Import List Arith Bool NArith.
-From Core Require Import Base Kron Op OpProofs Algebra AlgebraProofs FieldBase C06_Inv C06_Proofs C06_Struct C06_Thms.
+From Core Require Import Base Kron Op OpProofs Algebra AlgebraProofs FieldBase C06_Inv C06_Proofs C06_Struct C06_Thms C06_Tsolve.
 Import ListNotations.
 
 (* on every direct path - structural rules (Product reversed, Kronecker and BlockDiag factor-wise, Diagonal, ScalarMul, Identity,
@@ -82,6 +82,12 @@ Theorem C06_triinv_backward_consistent : forall (R : Type) (RR : Ring R) (tinv_o
   feq n n (fun i j => tinv_o n (fun a b => T b a) (negb lo) j i) (tinv_o n T lo).
 Proof. intros R RR. exact (@triinv_backward_consistent R RR). Qed.
 Print Assumptions C06_triinv_backward_consistent.
+
+(* the triangular solve by substitution (the executable reference the check uses for TriangularInv) meets the oracle specification,
+   so [tinv_ok] is satisfiable over every field and, with it, inv_den holds with no hypothesis on the triangular solve *)
+Theorem C06_triangular_solve_correct : forall (R : Type) (RR : Ring R) (FR : Field R), tinv_ok (tsolve (R:=R)).
+Proof. intros R RR FR. exact (@tsolve_ok R RR FR). Qed.
+Print Assumptions C06_triangular_solve_correct.
 
 (* the hypotheses are satisfiable on a non-trivial tree: (Diagonal (x) (3 * Permutation)) over the Gaussian rationals, any oracles *)
 Example C06_hypotheses_satisfiable : forall lu_o chol_o, wf ex_tree = true /\ is_sq ex_tree = true /\ ok lu_o chol_o AAuto ex_tree adef.
